@@ -46,8 +46,14 @@ def _groups(tier, seed):
                   ("sub2", "Reg0", "Zero", "Reg0"), ("add2", "Mem", "Mem", "MemZero")]
         binsel = [(t, "u8") for t in must_b + rnd.sample([t for t in allbin if t not in must_b], 28)]
         tersel = [(t, "u8") for t in must_t + rnd.sample([t for t in allter if t not in must_t], 28)]
-        binsel += [(t, "u64") for t in rnd.sample(allbin, 4)]
-        tersel += [(t, "u64") for t in rnd.sample(allter, 4)]
+        # 64-bit instances: the operand accessors are the same code for every op, and the product
+        # itself is covered at u8; a 64-bit multiplier behind symbolic operand muxes is the one
+        # thing CBMC may need minutes for (seed-dependent timeouts), so the sampled 64-bit
+        # instances are add / sub / copy and the 64-bit products are two fixed register forms.
+        binsel += [(t, "u64") for t in rnd.sample([t for t in allbin if t[0] != "mul"], 4)]
+        tersel += [(t, "u64") for t in rnd.sample([t for t in allter if t[0] != "mul2"], 4)]
+        binsel += [(("mul", "Reg1", "Reg0"), "u64")]
+        tersel += [(("mul2", "Reg0", "Reg1", "Imm"), "u64")]
         binsel += [(t, rnd.choice(["u16", "u32"])) for t in rnd.sample(allbin, 2)]
     else:
         binsel = [(t, w) for t in allbin for w in ("u8", "u64")] + [(t, w) for t in rnd.sample(allbin, 24) for w in ("u16", "u32")]
